@@ -727,6 +727,23 @@ func (b *bodyRun) havoc(st *State, phis []*ssa.Phi, writes map[string]*Loc, li *
 			e.cands = append(e.cands, s.T)
 		}
 	}
+	// ghost variables are arbitrary at the head of an arbitrary iteration
+	if st.ghost != nil {
+		ng := map[string]Value{}
+		var gks []string
+		for k := range st.ghost {
+			gks = append(gks, k)
+		}
+		sort.Strings(gks)
+		for _, k := range gks {
+			if k == "deadline" || k == "start" {
+				ng[k] = st.ghost[k] // fixed before the loop
+				continue
+			}
+			ng[k] = e.havocLike(st.ghost[k], fmt.Sprintf("%s_ghost_%s_l%d", b.fn.Name(), k, li.ordinal))
+		}
+		st.ghost = ng
+	}
 	for _, k := range sortedKeys(writes) {
 		l := writes[k]
 		// havoc the whole prefix location (path up to the first index)
